@@ -88,8 +88,19 @@ def classify(tree):
     nod = len(set(ls)) == len(ls)
     if flat(tree) and nod:
         return 'flat'
-    if tree['k'] == 'c' and nod and all(c['k'] == 'e' and c['min'] == 1 and c['max'] == 1 for c in tree['ps']):
+    def is_slot(t):
+        return (t['k'] == 'c' and t['min'] <= 1 and t['max'] in (None, 1) and t['ps'] and
+                all(c['k'] == 'e' and c['min'] == 1 and c['max'] == 1 for c in t['ps']))
+    if is_slot(tree) and nod:
         return 'rootchoice'
+    def slotted(t):
+        if t['k'] == 'e':
+            return True
+        if t['k'] == 'c':
+            return is_slot(t)
+        return t['min'] <= 1 and t['max'] == 1 and all(slotted(c) for c in t['ps'])
+    if slotted(tree) and nod:
+        return 'slotted'
     return 'wild'
 
 
